@@ -91,7 +91,8 @@ def checkFreq : Fields → Acc → Bool
 
 /-- end of `_doc_to_object`: frequency check under soft validation, then the instance -/
 def finish (cfg : Cfg) (cls : Text) (fs : Fields) (a : Acc) : Res Val :=
-  if cfg.soft && !checkFreq fs a then .fault else .good (.obj cls (a.map (fun s => (s.1, s.2.1))))
+  if cfg.soft && !cfg.noFreq.contains cls && !checkFreq fs a then .fault
+  else .good (.obj cls (a.map (fun s => (s.1, s.2.1))))
 
 def chars (s : Text) : List Doc := s.map (fun c => Doc.str [c])
 def ints (bs : List Nat) : List Doc := bs.map (fun b => Doc.int (Int.ofNat b))
@@ -120,10 +121,10 @@ mutual
       (match d with
        | .null => nullComplex G cfg o
        | .str s =>
-         if cfg.ignoreWrappers then (flatFields fields fields (chars s) (initAcc fields)).bind (finish cfg name fields)
+         if cfg.unwrapped name then (flatFields fields fields (chars s) (initAcc fields)).bind (finish cfg name fields)
          else .fault
        | .bytes bs =>
-         if cfg.ignoreWrappers then (flatFields fields fields (ints bs) (initAcc fields)).bind (finish cfg name fields)
+         if cfg.unwrapped name then (flatFields fields fields (ints bs) (initAcc fields)).bind (finish cfg name fields)
          else .fault
        | _ => .fault)
 
@@ -184,14 +185,14 @@ mutual
        | .prim p o => primIn F G cfg p o (.list ds)
        | .arr _ elem _ => (decodeItems elem ds).map Val.list
        | .obj name _ _ fields _ =>
-         if cfg.ignoreWrappers then (decodePos fields fields ds (initAcc fields)).bind (finish cfg name fields)
+         if cfg.unwrapped name then (decodePos fields fields ds (initAcc fields)).bind (finish cfg name fields)
          else .fault)
     | .map kvs =>
       (match t with
        | .prim p o => primIn F G cfg p o (.map kvs)
        | .arr _ elem _ => (mapRes (fun x => flatOne F G cfg elem x) (keyDocs kvs)).map Val.list
        | .obj name _ _ fields o =>
-         if cfg.ignoreWrappers then (decodeKvs fields kvs (initAcc fields)).bind (finish cfg name fields)
+         if cfg.unwrapped name then (decodeKvs fields kvs (initAcc fields)).bind (finish cfg name fields)
          else decodeWrapped name fields o kvs)
     | d => flatOne F G cfg t d
 
